@@ -3,6 +3,7 @@ package loadbalancer
 import (
 	"net/http"
 	"net/url"
+	"sync"
 	"time"
 
 	"github.com/0xReLogic/Helios/internal/config"
@@ -171,6 +172,7 @@ const (
 // verifNextOutcome reads the next scripted backend behaviour.
 func verifNextOutcome() (kind int, status int) {
 	if verifForceOK {
+		verifSetLast(verifOutStatus, 200)
 		return verifOutStatus, 200
 	}
 	kind = verifrt.Choice("backendOutcome", 3)
@@ -178,7 +180,27 @@ func verifNextOutcome() (kind int, status int) {
 	if kind != verifOutRefused {
 		status = verifrt.IntRange("backendStatus", 200, 599)
 	}
+	verifSetLast(kind, status)
 	return
+}
+
+// harness-owned shared state is guarded by its own mutex so that concurrent
+// harnesses do not introduce races of their own
+var (
+	verifMu                        sync.Mutex
+	verifLastKind, verifLastStatus int
+)
+
+func verifSetLast(kind, status int) {
+	verifMu.Lock()
+	verifLastKind, verifLastStatus = kind, status
+	verifMu.Unlock()
+}
+
+func verifHit(name string) {
+	verifMu.Lock()
+	verifProxyHits[name]++
+	verifMu.Unlock()
 }
 
 // verifServerCtx marks a request as running under an http.Server (native replay only).
